@@ -3,6 +3,7 @@
   Model: Coraza/Model/Recycle.lean (newTransaction / Close over the engine model's state).
 -/
 import Coraza.Model.Recycle
+import Coraza.Model.Readers
 open Coraza Coraza.Engine
 
 /-- C05_reinit: whatever state a finished transaction was left in — matches, interruption in
@@ -38,3 +39,140 @@ def C05_dirty : Tx :=
   { skip := 3, skipAfter := [1], allow := Allow.all, engine := EngineMode.off, rmIds := [5], lastPhase := 4,
     intr := some ⟨1, "deny", 403, []⟩ }
 example : closeTx C05_dirty ≠ freshTx .on := by decide
+
+/-! ## body readers of a closed transaction (Model/Readers.lean) -/
+
+open Coraza.Readers in
+/-- every reader handed out and not yet closed is registered with the buffer -/
+def C05_RInv (s : St) : Prop :=
+  ∀ i r, s.readers[i]? = some r → r.closed = false → i ∈ s.registered
+
+open Coraza.Readers in
+theorem C05_rinv_step (s : St) (op : Op) (h : C05_RInv s) : C05_RInv (step s op) := by
+  intro i r hi hc
+  cases op with
+  | write b => exact h i r hi hc
+  | reader =>
+    simp only [step] at hi ⊢
+    by_cases hlt : i < s.readers.length
+    · rw [List.getElem?_append_left hlt] at hi
+      exact List.mem_append_left _ (h i r hi hc)
+    · obtain ⟨hle, _⟩ := List.getElem?_eq_some_iff.mp hi
+      have : i = s.readers.length := by simp at hle; omega
+      subst this
+      simp
+  | read j n =>
+    simp only [step] at hi ⊢
+    rw [List.getElem?_map] at hi
+    cases hz : s.readers.zipIdx[i]? with
+    | none => simp [hz] at hi
+    | some p =>
+      obtain ⟨r0, j0⟩ := p
+      simp only [hz, Option.map_some, Option.some.injEq] at hi
+      have hz' := hz
+      rw [List.getElem?_zipIdx] at hz'
+      cases hr : s.readers[i]? with
+      | none => simp [hr] at hz'
+      | some r1 =>
+        simp only [hr, Option.map_some, Option.some.injEq, Prod.mk.injEq] at hz'
+        obtain ⟨rfl, _⟩ := hz'
+        apply h i r1 hr
+        subst hi
+        split at hc
+        · rename_i hcond
+          simp only [Bool.and_eq_true, Bool.not_eq_true'] at hcond
+          exact hcond.2
+        · exact hc
+  | reset =>
+    simp only [step, closeAll] at hi
+    rw [List.getElem?_map] at hi
+    cases hz : s.readers.zipIdx[i]? with
+    | none => simp [hz] at hi
+    | some p =>
+      obtain ⟨r0, j0⟩ := p
+      simp only [hz, Option.map_some, Option.some.injEq] at hi
+      have hz' := hz
+      rw [List.getElem?_zipIdx] at hz'
+      cases hr : s.readers[i]? with
+      | none => simp [hr] at hz'
+      | some r1 =>
+        simp only [hr, Option.map_some, Option.some.injEq, Prod.mk.injEq] at hz'
+        obtain ⟨rfl, rfl⟩ := hz'
+        subst hi
+        split at hc
+        · simp at hc
+        · rename_i hnot
+          have := h i r1 hr hc
+          simp only [Nat.zero_add] at hnot
+          exact absurd (by simpa using this) hnot
+
+open Coraza.Readers in
+theorem C05_rinv_run (ops : List Op) (s : St) (h : C05_RInv s) : C05_RInv (run s ops) := by
+  unfold run
+  induction ops generalizing s with
+  | nil => exact h
+  | cons op ops ih => exact ih (step s op) (C05_rinv_step s op h)
+
+open Coraza.Readers in
+/-- after Reset every reader handed out so far is closed -/
+theorem C05_reset_closes_all (s : St) (h : C05_RInv s) :
+    ∀ (i : Nat) (r : Rd), (step s .reset).readers[i]? = some r → r.closed = true := by
+  intro i r hi
+  cases hc : r.closed with
+  | true => rfl
+  | false =>
+    have := C05_rinv_step s .reset h i r hi hc
+    simp [step] at this
+
+open Coraza.Readers in
+/-- **C05_readers_dead**: take any history of writes, readers handed out and reads on a body
+    buffer; close the transaction (Reset); then let the recycled object serve any further history
+    (new writes, new readers, reads): a reader handed out *before* the Close yields no byte, whatever
+    it is asked for and whatever the buffer holds by then. -/
+theorem C05_readers_dead (before after : List Op) (i n : Nat)
+    (hi : i < (run {} before).readers.length) :
+    readOut (run (step (run {} before) .reset) after) i n = [] := by
+  -- closed readers stay closed and keep their index under every later operation
+  have closedStays : ∀ (ops : List Op) (s : St) (r : Rd), s.readers[i]? = some r → r.closed = true →
+      ∃ r', (run s ops).readers[i]? = some r' ∧ r'.closed = true := by
+    intro ops
+    induction ops with
+    | nil => intro s r h1 h2; exact ⟨r, h1, h2⟩
+    | cons op ops ih =>
+      intro s r h1 h2
+      have : ∃ r', (step s op).readers[i]? = some r' ∧ r'.closed = true := by
+        cases op with
+        | write b => exact ⟨r, h1, h2⟩
+        | reader =>
+          refine ⟨r, ?_, h2⟩
+          simp only [step]
+          obtain ⟨hlt, _⟩ := List.getElem?_eq_some_iff.mp h1
+          rw [List.getElem?_append_left hlt]; exact h1
+        | read j m =>
+          simp only [step]
+          rw [List.getElem?_map, List.getElem?_zipIdx, h1]
+          simp only [Option.map_some, Nat.zero_add]
+          refine ⟨_, rfl, ?_⟩
+          simp [h2]
+        | reset =>
+          simp only [step, closeAll]
+          rw [List.getElem?_map, List.getElem?_zipIdx, h1]
+          simp only [Option.map_some, Nat.zero_add]
+          refine ⟨_, rfl, ?_⟩
+          split <;> simp [h2]
+      obtain ⟨r', h1', h2'⟩ := this
+      exact ih (step s op) r' h1' h2'
+  have inv0 : C05_RInv ({} : St) := by intro i r h; simp at h
+  have inv := C05_rinv_run before {} inv0
+  obtain ⟨r0, hr0⟩ : ∃ r0, (step (run {} before) .reset).readers[i]? = some r0 := by
+    have : i < (step (run {} before) .reset).readers.length := by simpa [step, closeAll] using hi
+    exact ⟨_, List.getElem?_eq_getElem this⟩
+  have hc0 := C05_reset_closes_all _ inv i r0 hr0
+  obtain ⟨r', h1, h2⟩ := closedStays after _ r0 hr0 hc0
+  simp [readOut, h1, h2]
+
+open Coraza.Readers in
+/-- non-vacuity: a spilled-style history; the stale reader (index 0) would otherwise see the
+    next transaction's bytes -/
+example : readOut (run {} [.write [1, 2, 3], .reader, .read 0 1, .reset, .write [9, 9], .reader]) 0 10 = [] ∧
+          readOut (run {} [.write [1, 2, 3], .reader, .read 0 1, .reset, .write [9, 9], .reader]) 1 10 = [9, 9] := by decide
